@@ -23,7 +23,7 @@ RULE = ('random positions world-wide inside the TM band (NSW longitudes for ISG)
 ASSUMPTIONS = ['the functional conversions themselves are judged by C01/C02/C03/C08', 'angle_exact for the denoted latitude/longitude']
 N = {'quick': 600, 'thorough': 10000}
 SHARDS = {'quick': 16, 'thorough': 32}
-REQUIRED_COUNTERS = ['alias_conversions', 'op:geo.cart', 'op:cart.geo', 'op:geo.tm', 'op:tm.geo', 'op:geo.notation', 'op:cart.tm', 'op:tm.cart',
+REQUIRED_COUNTERS = ['source_objects_checked', 'reused_sources', 'alias_conversions', 'op:geo.cart', 'op:cart.geo', 'op:geo.tm', 'op:tm.geo', 'op:geo.notation', 'op:cart.tm', 'op:tm.cart',
                      'chains_closed', 'nval_zero_cases', 'height_zero_cases']
 NOTATIONS = ['float'] + ax.ANGLE_CLASSES
 HSTATES = ['absent', 'zero', 'value']
@@ -53,7 +53,7 @@ def gen_start(rnd):
     ell = 'ans' if (prj == 'isg' or rnd.random() < 0.3) else 'grs80'
     lat = rnd.uniform(-79.5, 83.5)
     if rnd.random() < 0.1:
-        lat = rnd.choice([-0.5, 0.25, 1e-6, -1e-6, -33.5, 45.0])
+        lat = rnd.choice([-0.5, 0.25, 1e-6, -1e-6, -33.5, 45.0, 0.0, -0.0, 0.0])
     if prj == 'isg':
         lon = rnd.uniform(138.01, 155.99)
         lat = rnd.uniform(-44.0, -20.0)      # ISG northings stay inside the range the inverse accepts
@@ -241,6 +241,19 @@ class Judge:
         return c
 
 
+def snapshot(obj):
+    """value snapshot of a coordinate object (angles by their stored fields)"""
+    out = {}
+    for k, v in sorted(vars(obj).items()):
+        if hasattr(v, '__dict__') and type(v).__name__ in ax.ANGLE_CLASSES:
+            out[k] = [type(v).__name__, sorted((a, repr(b)) for a, b in vars(v).items())]
+        elif type(v).__name__ == 'Projection':
+            out[k] = ['Projection', id(v)]
+        else:
+            out[k] = repr(v)
+    return out
+
+
 def position_of(ns, J, obj):
     """Cartesian position (metres) of any coordinate object, through the functional API (heights: absent -> 0)."""
     C = ns.coord
@@ -268,6 +281,8 @@ def run_chain(ns, ctx, start, ops, rec=True):
     kind = 'geo'
     for op in ops:
         name = op[0]
+        before = snapshot(cur)
+        src = cur
         if kind == 'geo':
             if name == 'cart':
                 nxt, nk = J.geo_cart(cur, case), 'cart'
@@ -294,6 +309,27 @@ def run_chain(ns, ctx, start, ops, rec=True):
         if nxt is None:
             ctx.count('chain_aborted_by_step_failure')
             return
+        # a conversion returns a new object and leaves its source as it was (the source may be converted again)
+        ctx.count('source_objects_checked')
+        if snapshot(src) != before:
+            ctx.violation('%s.%s:source-object-changed' % (type(src).__name__, name), case, {'before': before, 'after': snapshot(src)})
+        if len(op) > 2 and op[2] == 'reuse':
+            # the same source converted a second time must give the same result
+            again = None
+            if kind == 'geo' and name == 'cart':
+                again = J.geo_cart(src, case)
+            elif kind == 'geo' and name == 'tm':
+                again = J.geo_tm(src, case)
+            elif kind == 'cart' and name == 'geo':
+                again = J.cart_geo(src, op[1], case)
+            elif kind == 'tm' and name == 'geo':
+                again = J.tm_geo(src, op[1], case)
+            elif kind == 'tm' and name == 'cart':
+                again = J.tm_cart(src, case)
+            if again is not None and snapshot(again) != snapshot(nxt):
+                ctx.violation('%s.%s:second-conversion-differs' % (type(src).__name__, name), case,
+                              {'first': snapshot(nxt), 'second': snapshot(again)})
+            ctx.count('reused_sources')
         if len(op) > 2 and op[2] == 'alias':
             # the same object converted once more with the other ellipsoid (and judged against the functional API for
             # that ellipsoid): a memo keyed on the numbers without the ellipsoid answers with the first conversion
@@ -338,6 +374,8 @@ def gen_ops(rnd, n):
             kind = name
         if name != 'notation' and rnd.random() < 0.25:
             ops[-1] = ops[-1][:2] + ['alias']
+        elif name != 'notation' and rnd.random() < 0.3:
+            ops[-1] = ops[-1][:2] + ['reuse']
     return ops
 
 
